@@ -52,7 +52,7 @@ pub fn special_texts() -> Vec<String> {
 
 /// A comment (plus newline) that moves everything behind it across a position threshold.
 pub fn position_padding(rng: &mut Rng) -> String {
-    let target = *rng.pick(&[250usize, 256, 260, 1000, 4090, 4096, 4100, 9995, 10005, 32760, 32770, 60000]);
+    let target = *rng.pick(&[250usize, 256, 260, 1000, 4090, 4096, 4100, 9995, 10005, 32760, 32770, 60000, 65530, 65540, 99995, 100005, 131080, 1_048_580]);
     let jitter = rng.below(6);
     let body = if rng.chance(0.2) { "é".repeat((target + jitter) / 2) } else { "p".repeat(target + jitter) };
     format!("//{body}\n")
